@@ -41,9 +41,12 @@ type plCase struct {
 	Churn int `json:"churn,omitempty"`
 	// LazyDrain: the queue consumer reads only after the phase's workers have finished (slow consumer), so every
 	// published message stays queued while the workers go on to decode and encode all later datagrams
-	LazyDrain bool           `json:"lazy_drain,omitempty"`
-	ExactFit  bool           `json:"exact_fit,omitempty"` // UDPSize was derived from a datagram's own length
-	Verbose   bool           `json:"verbose,omitempty"`   // workers log every datagram (verbose: true)
+	LazyDrain bool `json:"lazy_drain,omitempty"`
+	ExactFit  bool `json:"exact_fit,omitempty"` // UDPSize was derived from a datagram's own length
+	Verbose   bool `json:"verbose,omitempty"`   // workers log every datagram (verbose: true)
+	// Subset: indexes of phases that overflow the message queue by construction (slow consumer, > 1000 publishing
+	// datagrams): what is published there must be a sub-multiset of the expected payloads, nothing more
+	Subset    []int          `json:"subset,omitempty"`
 	Filter    []uint32       `json:"filter,omitempty"`
 	Exporters []wire.Hex     `json:"exporters"`
 	Phases    [][]plDatagram `json:"phases"`
@@ -72,8 +75,12 @@ type plKey struct {
 	ann  []byte     // the announcement datagram (re-sent unchanged as a periodic template refresh)
 }
 
-func genPipeline(t *rapid.T, proto string, envs map[string]*wire.GenEnv, maxPhaseLen int) plCase {
+func genPipeline(t *rapid.T, proto string, envs map[string]*wire.GenEnv, maxPhaseLen int, opts ...string) plCase {
 	c := plCase{Proto: proto}
+	forceOverflow := false
+	for _, o := range opts {
+		forceOverflow = forceOverflow || o == "overflow"
+	}
 	c.Workers = rapid.OneOf(rapid.IntRange(1, 4), rapid.IntRange(1, 16)).Draw(t, "workers")
 	c.UDPSize = rapid.SampledFrom([]int{1500, 1500, 1500, 1500, 600, 2048, 9000, 9000, 65535}).Draw(t, "udpsize")
 	c.Race = rapid.Bool().Draw(t, "race")
@@ -179,6 +186,7 @@ func genPipeline(t *rapid.T, proto string, envs map[string]*wire.GenEnv, maxPhas
 		env := envs[proto]
 		var keys []plKey
 		usedID := map[string]bool{}
+		weirdID, weirdExp := uint16(0), 0
 		for p := 0; p < nphases; p++ {
 			// announce phase: new keys (and re-announcements of existing ones with a new definition)
 			var ann []plDatagram
@@ -227,6 +235,36 @@ func genPipeline(t *rapid.T, proto string, envs map[string]*wire.GenEnv, maxPhas
 					tp := key.tpl
 					key.sets = append(key.sets, env.GenDataSet(t, &tp, rapid.SampledFrom([]int{1, 3, 20, 60}).Draw(t, "maxrecs")))
 				}
+			}
+			// an adversarially shaped template under an id of its own (field lengths whose sum wraps around 16 bits,
+			// huge or zero lengths): whatever the decoder makes of it and of data naming it, every worker must make
+			// the same of it as a decode on its own does
+			if weirdID == 0 && len(keys) > 0 && rapid.IntRange(0, 3).Draw(t, "weirdtpl") == 0 {
+				wexp := keys[0].exp
+				id := uint16(60000)
+				for usedID[fmt.Sprint(wexp, id)] {
+					id++
+				}
+				usedID[fmt.Sprint(wexp, id)] = true
+				weirdID, weirdExp = id, wexp
+				k := uint16(rapid.IntRange(1, 40).Draw(t, "wrapk"))
+				lens := rapid.SampledFrom([][]uint16{{32768, 32768 + k}, {0x7fff, 0x7fff, 2 + k}, {65534, 2 + k}, {65535, 65535}, {0, 0, k}, {40000, 40000, k}, {16384, 16384, 16384, 16384 + k}}).Draw(t, "wraplens")
+				if proto == "ipfix" {
+					for i := range lens {
+						if lens[i] == 65535 {
+							lens[i] = 65534 // 65535 is the variable-length marker there
+						}
+					}
+				}
+				wt := wire.Template{ID: id}
+				for i, l := range lens {
+					wt.Fields = append(wt.Fields, wire.Field{ID: uint16(1 + i), Len: l, Type: wire.TOctetArray})
+				}
+				var m wire.Msg
+				env.GenHeader(t, &m)
+				m.Seq = nextSeq()
+				m.Sets = []wire.Set{{Kind: "tpl", Tpls: []wire.Template{wt}}}
+				ann = append(ann, plDatagram{Exp: wexp, Data: m.Bytes(), Class: "weird-announce"})
 			}
 			if len(ann) > 0 {
 				c.Phases = append(c.Phases, ann)
@@ -281,6 +319,23 @@ func genPipeline(t *rapid.T, proto string, envs map[string]*wire.GenEnv, maxPhas
 						b[pos] ^= byte(rapid.IntRange(1, 255).Draw(t, "corruptxor"))
 						class = "corrupted"
 					}
+				case 8:
+					if weirdID != 0 {
+						// data naming the adversarially shaped template, next to sets of a sane one
+						wm := m
+						raw := wire.Set{Kind: "raw", RawID: weirdID, RawBody: rapid.SliceOfN(rapid.Byte(), 4, 120).Draw(t, "wbody")}
+						if key.exp == weirdExp && rapid.Bool().Draw(t, "wmixed") {
+							wm.Sets = append(append([]wire.Set{}, m.Sets...), raw)
+						} else {
+							wm.Domain = uint32(weirdExp)
+							wm.Sets = []wire.Set{raw}
+						}
+						b, class = wm.Bytes(), "weird-data"
+						if len(wm.Sets) == 1 {
+							data = append(data, plDatagram{Exp: weirdExp, Data: b, Class: class})
+							continue
+						}
+					}
 				case 5, 6:
 					// periodic template refresh: the identical announcement again, concurrently with data that uses
 					// the template (the cache content does not change, so the phase stays order-independent)
@@ -310,6 +365,64 @@ func genPipeline(t *rapid.T, proto string, envs map[string]*wire.GenEnv, maxPhas
 				data = append(data, plDatagram{Exp: key.exp, Data: b, Class: class})
 			}
 			c.Phases = append(c.Phases, withCross(data))
+		}
+		if forceOverflow || rapid.IntRange(0, 11).Draw(t, "overflow") == 0 {
+			// queue overflow: with a slow consumer more than 1000 publishing datagrams fill the message queue; what
+			// is dropped then is dropped (the property's "queue not full" precondition), but a template announced
+			// while the queue is full is still the exporter's latest template
+			c.LazyDrain = true
+			exp := rapid.IntRange(0, ne-1).Draw(t, "ovexp")
+			mk := func() *plKey {
+				id := wire.GenTemplateID(t)
+				for usedID[fmt.Sprint(exp, id)] {
+					id++
+					if id < 256 {
+						id = 256
+					}
+				}
+				usedID[fmt.Sprint(exp, id)] = true
+				return &plKey{exp: exp, tpl: env.GenTemplate(t, id)}
+			}
+			announce := func(k *plKey) plDatagram {
+				var m wire.Msg
+				env.GenHeader(t, &m)
+				m.Seq = nextSeq()
+				kind := "tpl"
+				if k.tpl.Options {
+					kind = "opt"
+				}
+				m.Sets = []wire.Set{{Kind: kind, Tpls: []wire.Template{k.tpl}}}
+				return plDatagram{Exp: k.exp, Data: m.Bytes(), Class: "announce"}
+			}
+			dataFor := func(k *plKey) plDatagram {
+				var m wire.Msg
+				m.Proto, m.Time, m.Domain, m.Count = proto, 1700000000, uint32(k.exp), 1
+				m.Seq = nextSeq()
+				tp := k.tpl
+				m.Sets = []wire.Set{env.GenDataSet(t, &tp, 1)}
+				return plDatagram{Exp: k.exp, Data: m.Bytes(), Class: "valid"}
+			}
+			filler, victim := mk(), mk()
+			c.Phases = append(c.Phases, []plDatagram{announce(filler), announce(victim)})
+			var flood []plDatagram
+			one := dataFor(filler)
+			for i, n := 0, rapid.IntRange(1040, 1150).Draw(t, "ovn"); i < n; i++ {
+				d := one
+				if i%8 == 0 {
+					d = dataFor(filler)
+				}
+				flood = append(flood, d)
+			}
+			// the victim's template is redefined while the queue is full
+			victim.tpl = env.GenTemplate(t, victim.tpl.ID)
+			flood = append(flood, announce(victim), announce(victim))
+			c.Subset = append(c.Subset, len(c.Phases))
+			c.Phases = append(c.Phases, flood)
+			var after []plDatagram
+			for i := 0; i < 12; i++ {
+				after = append(after, dataFor(victim), dataFor(filler))
+			}
+			c.Phases = append(c.Phases, after)
 		}
 	case "nf5":
 		for p := 0; p < nphases; p++ {
@@ -505,6 +618,14 @@ func runPipeline(prop string, c *plCase) (v verdict, sig string, err error) {
 		}
 		return s
 	}
+	subset := map[int]bool{}
+	for _, pi := range c.Subset {
+		if !c.LazyDrain || pi < 0 || pi >= len(c.Phases) || len(c.Phases[pi]) < 1000 {
+			return v, "", fmt.Errorf("bad case: subset phase")
+		}
+		subset[pi] = true
+		v.label(true, "message-queue-overflow-phase")
+	}
 	// compare the multiset a pipeline published with what its datagrams decode to on their own
 	compare := func(pi int, pname string, nsent int, published []string, want map[string]int) (string, error) {
 		got := map[string]int{}
@@ -544,7 +665,7 @@ func runPipeline(prop string, c *plCase) (v verdict, sig string, err error) {
 			return "extra", fmt.Errorf("phase %d, %s: %d published payloads correspond to no datagram sent, e.g. %s", pi, what, len(extra), clip(extra[0]))
 		case len(dup) > 0:
 			return "duplicate", fmt.Errorf("phase %d, %s: %d payloads published more than once, e.g. %s", pi, what, len(dup), clip(dup[0]))
-		case len(missing) > 0:
+		case len(missing) > 0 && !subset[pi]:
 			return "missing", fmt.Errorf("phase %d, %s (%d datagrams, %d workers): %d datagrams that yield records were not published, e.g. %s", pi, what, nsent, c.Workers, len(missing), clip(missing[0]))
 		}
 		return "", nil
